@@ -130,6 +130,12 @@ def run(cx):
     cx.ob("R20c", rets[0] if rets else to_short, ok, "uuid_to_short_str encodes the full 128-bit integer of the uuid" if ok else "uuid_to_short_str does not return encoder(uuid.int)")
 
     # ---- R20d / R20e in uuid_from_short_str ----------------------------------------------
+    # private helpers other than the decoder itself are expanded in place (analysis copy), so a constructor wrapped into a
+    # helper is judged like the inline form
+    from sa.inline import inlined
+    from_short, _used = inlined(mod, from_short, exclude=(dec.name, enc.name))
+    if _used:
+        cx.note(f"R20d/R20e: uuid_from_short_str analysed with {_used} inlined")
     arg = params(from_short)[0]
     dcalls = [n for n in walk_local(from_short) if isinstance(n, ast.Call) and call_name(n) == dec.name]
     cx.need(dcalls, "R20d", from_short, "decoder is not called")
@@ -145,6 +151,7 @@ def run(cx):
         cx.ob("R20d", c, ok, "the whole argument is decoded" if ok else f"decoder receives {norm(c.args[0]) if c.args else '?'} instead of the argument", stmt=norm(enclosing_stmt(c)) + " [arg]")
     ucalls = [n for n in walk_local(from_short) if isinstance(n, ast.Call) and dotted(n.func) in ("uuid.UUID", "UUID")]
     cx.need(ucalls, "R20d", from_short, "uuid.UUID is not constructed")
+    extra_raisers = []
     for u in ucalls:
         kw = {k.arg: k.value for k in u.keywords}
         ok = "int" in kw and isinstance(kw["int"], ast.Name) and not u.args
@@ -152,13 +159,50 @@ def run(cx):
         if ok:
             defs = [v for _, v in assignments(from_short, kw["int"].id)]
             src_ok = len(defs) == 1 and isinstance(defs[0], ast.Call) and call_name(defs[0]) == dec.name
-        cx.ob("R20d", u, ok and src_ok, "uuid.UUID(int=<decoded number>) rejects numbers >= 2**128" if ok and src_ok else
-              "the decoded number is modified (masked / reduced) or not passed as int=: overflow is not rejected")
+        if ok and src_ok:
+            cx.ob("R20d", u, True, "uuid.UUID(int=<decoded number>) rejects numbers >= 2**128")
+            continue
+        # another route from the decoded number to the UUID: it has to reject numbers >= 2**128 itself
+        nums = {t.id for st in walk_local(from_short) if isinstance(st, ast.Assign) and isinstance(st.value, ast.Call) and call_name(st.value) == dec.name
+                for t in st.targets if isinstance(t, ast.Name)}
+        changed = True
+        while changed:      # names computed from the number
+            changed = False
+            for st in walk_local(from_short):
+                if isinstance(st, ast.Assign) and len(st.targets) == 1 and isinstance(st.targets[0], ast.Name) and st.targets[0].id not in nums \
+                        and any(isinstance(x, ast.Name) and x.id in nums for x in ast.walk(st.value)) and not isinstance(st.value, ast.Call):
+                    nums.add(st.targets[0].id)
+                    changed = True
+        bounded = False
+        for n_ in nums:
+            lo, hi = _bounds_with_consts(facts(u), n_, mod)
+            if hi is not None and hi < 2 ** 128:
+                bounded = True
+        uses = [x for x in ast.walk(u) if isinstance(x, ast.Name) and x.id in nums]
+        reduced = [b for b in ast.walk(u) if isinstance(b, ast.BinOp) and isinstance(b.op, (ast.BitAnd, ast.Mod)) and any(isinstance(x, ast.Name) and x.id in nums for x in ast.walk(b))]
+        for st in walk_local(from_short):
+            if isinstance(st, ast.Assign) and isinstance(st.value, ast.BinOp) and isinstance(st.value.op, (ast.BitAnd, ast.Mod)) \
+                    and any(isinstance(x, ast.Name) and x.id in nums for x in ast.walk(st.value)):
+                reduced.append(st.value)
+        tb = [c_ for c_ in ast.walk(u) if isinstance(c_, ast.Call) and call_name(c_) == "to_bytes" and isinstance(c_.func, ast.Attribute) and is_name(c_.func.value) and c_.func.value.id in nums]
+        if bounded:
+            cx.ob("R20d", u, True, "the decoded number is tested against 2**128 before the UUID is built from it")
+        elif reduced:
+            cx.ob("R20d", u, False, f"the decoded number is reduced (`{norm(reduced[0])}`) before the UUID is built and no range test precedes: "
+                  "numbers >= 2**128 wrap around and are accepted")
+        elif tb and len(tb[0].args) >= 1 and const(tb[0].args[0], int) and tb[0].args[0].value == 16:
+            extra_raisers.append(("OverflowError", u))
+            cx.ob("R20d", u, True, "int.to_bytes(16, ..) raises OverflowError for numbers >= 2**128 (handler types are checked by R20e)")
+        else:
+            cx.need(uses, "R20d", from_short, "the UUID is not built from the decoded number")
+            cx.need(False, "R20d", from_short, f"how `{norm(u)[:80]}` rejects numbers >= 2**128 is not recognised")
     # R20e: every implicit raiser inside try; handler types
     tries = [n for n in walk_local(from_short) if isinstance(n, ast.Try)]
     implicit = set()
     if dec_subs:
         implicit.add("KeyError")       # dict subscript in the decoder
+    for nm_, _u in extra_raisers:
+        implicit.add(nm_)
     for site in dcalls + ucalls:
         t = next((t for t in tries if any(site in list(ast.walk(s)) for s in t.body)), None)
         cx.ob("R20e", site, t is not None, "call is inside a try block" if t else "call that may raise is outside any handler")
@@ -209,6 +253,44 @@ def run(cx):
     in_try = [c for c in fb if any(c in list(ast.walk(s)) for s in t.body)]
     cx.ob("R20f", t, not in_try, "fallback is outside the try body" if not in_try else "short form is attempted inside the try body", stmt="try: [order]")
     cx.count("functions_analysed", 5)
+
+
+def _bounds_with_consts(fs, name, mod):
+    """int_bounds, with constant integer expressions (2 ** 128, 1 << 128, module constants bound to such) folded first"""
+    from sa.guards import int_bounds
+
+    def fold(e):
+        if isinstance(e, ast.Constant) and isinstance(e.value, int) and not isinstance(e.value, bool):
+            return e.value
+        if isinstance(e, ast.Name) and e.id in mod.globals:
+            d = [st.value for st in mod.tree.body if isinstance(st, ast.Assign) and any(is_name(t, e.id) for t in st.targets)]
+            return fold(d[0]) if len(d) == 1 else None
+        if isinstance(e, ast.BinOp):
+            a, b = fold(e.left), fold(e.right)
+            if a is None or b is None:
+                return None
+            if isinstance(e.op, ast.Pow) and 0 <= b <= 256:
+                return a ** b
+            if isinstance(e.op, ast.LShift) and 0 <= b <= 256:
+                return a << b
+            if isinstance(e.op, ast.Mult):
+                return a * b
+            if isinstance(e.op, ast.Add):
+                return a + b
+            if isinstance(e.op, ast.Sub):
+                return a - b
+        return None
+    out = []
+    for e, pol in fs:
+        if isinstance(e, ast.Compare) and len(e.ops) == 1:
+            l, r = e.left, e.comparators[0]
+            fl, fr = (None if isinstance(l, ast.Name) and l.id == name else fold(l)), (None if isinstance(r, ast.Name) and r.id == name else fold(r))
+            if fl is not None or fr is not None:
+                e2 = ast.Compare(left=ast.Constant(value=fl) if fl is not None else l, ops=e.ops, comparators=[ast.Constant(value=fr) if fr is not None else r])
+                out.append((e2, pol))
+                continue
+        out.append((e, pol))
+    return int_bounds(out, name)
 
 
 def _always_raises(stmts):
